@@ -312,7 +312,7 @@ def check_op(sc, obs, opi, add):
 
 def expected_exc_types(op):
     f = op.get('fail') or {}
-    return {'ValueError': 'ValueError', 'Custom': 'CustomError', 'Attr': 'AttrError', 'SystemExit': 'SystemExit', 'KeyError': 'KeyError', 'Wrap': 'WrapError', 'Prefix': 'PrefixedError', 'TypeError': 'TypeError'}.get(f.get('exc', 'ValueError'))
+    return {'ValueError': 'ValueError', 'Custom': 'CustomError', 'Attr': 'AttrError', 'SystemExit': 'SystemExit', 'KeyError': 'KeyError', 'Wrap': 'WrapError', 'Prefix': 'PrefixedError', 'TypeError': 'TypeError', 'KeyboardInterrupt': 'KeyboardInterrupt'}.get(f.get('exc', 'ValueError'))
 
 
 def check_failure_op(sc, obs, opi, add, latency_bound=None):
@@ -457,6 +457,12 @@ def check_scenario(sc, obs, add):
             if a1 is None or b0 < a1:
                 add('C13', 'one_live_instance_per_id', {'id': role, 'first_instance_steps': [a0, a1], 'next_instance_started_at_step': b0})
                 break
+    # one of the pool's own helper threads ended with an exception: whatever it was responsible for is no longer done
+    for role, err, tb in obs.get('thread_excs') or []:
+        if role in ('results_handler', 'restart_handler', 'timeout_handler', 'unexpected_death_handler', 'progress_bar_handler') and 'SimAbort' not in err:
+            for p in ('C03', 'C04', 'C05', 'C07', 'C08', 'C09', 'C12', 'C19'):
+                add(p, 'helper_thread_crashed', {'thread': role, 'error': err[:200]})
+            break
     if obs.get('procs_alive'):
         add('C05', 'no_worker_process_alive_after_exit', {'alive': obs['procs_alive'][:8]})
     if obs.get('alive_at_exit'):
